@@ -1626,7 +1626,7 @@ Proof.
     + unfold sign_input, eval_input. change (10000 <? lenN (@nil byte)) with false. cbv iota. rewrite parse_pushes_nil.
       cbn [f_std LAX andb orb negb all_le_520 forallb lenN length N.of_nat N.ltb N.compare pz_kind is_nil eval_p2pkh split_last rev].
       unfold solve_input. cbn [existing_blobs]. rewrite parse_pushes_nil. cbn [pz_kind pz_keys pz_m pz_hash].
-      unfold solve_pkh. fold h. rewrite Hl. destruct k as [se c]. cbn [existsb fst snd] in *. change (pub_of se c) with (PUB (se, c)).
+      unfold solve_pkh. fold h. rewrite Hl. destruct k as [se c]. cbn [fst snd] in *. change (pub_of se c) with (PUB (se, c)).
       fold ht. rewrite (single_solver false _ (se, c) db ht c Hl' Hht). reflexivity.
     + cbn [fst snd]. unfold eval_input.
       pose proof (lenN_pushes 73 [BLOB false (p2pkh_script h) k ht; PUB k] ltac:(lia) ltac:(repeat constructor; lia)) as Hs.
@@ -1648,7 +1648,7 @@ Proof.
       cbn [f_std LAX andb orb negb all_le_520 forallb lenN length N.of_nat N.ltb N.compare pz_kind is_nil expected_wit_script_sig
            bytes_eqb eval_witness_part Nat.eqb].
       unfold solve_input. cbn [existing_blobs]. rewrite parse_pushes_nil. cbn [pz_kind pz_keys pz_m pz_hash].
-      unfold solve_pkh. fold h. rewrite Hl. destruct k as [se c]. cbn [existsb fst snd] in *. change (pub_of se c) with (PUB (se, c)).
+      unfold solve_pkh. fold h. rewrite Hl. destruct k as [se c]. cbn [fst snd] in *. change (pub_of se c) with (PUB (se, c)).
       fold ht. rewrite (single_solver true _ (se, c) db ht c Hl' Hht). reflexivity.
     + cbn [fst snd]. unfold eval_input. change (10000 <? lenN (@nil byte)) with false. cbv iota. rewrite parse_pushes_nil.
       rewrite andb_false_r.
@@ -1670,7 +1670,7 @@ Proof.
       pose proof (push_data_nonempty (wit0_script h)) as Hne.
       destruct (push_data (wit0_script h)) as [|pb pl] eqn:Epd; [cbn in Hne; lia|]. cbn [bytes_eqb andb].
       unfold solve_input. cbn [existing_blobs]. rewrite parse_pushes_nil. cbn [pz_kind pz_keys pz_m pz_hash].
-      rewrite Hp. unfold solve_pkh. fold h. rewrite Hl. destruct k as [se c]. cbn [existsb fst snd] in *. change (pub_of se c) with (PUB (se, c)).
+      rewrite Hp. unfold solve_pkh. fold h. rewrite Hl. destruct k as [se c]. cbn [fst snd] in *. change (pub_of se c) with (PUB (se, c)).
       fold ht. rewrite (single_solver true _ (se, c) db ht c Hl' Hht). reflexivity.
     + cbn [fst snd]. unfold eval_input.
       pose proof (push_data_length (wit0_script h) ltac:(lia)) as Hpl2.
@@ -1796,16 +1796,7 @@ Qed.
 End StdShape.
 
 (* ================================================================================================ *)
-(* 11. exceptions escaping Tx.sign                                                                    *)
-Definition pkh_kind (kd : kind) : bool :=
-  match kd with K_P2PKH | K_P2WPKH | K_P2SH_P2WPKH => true | _ => false end.
-
-(* exclusion predicate of known finding resign-stale-pkh-typeerror: a P2PKH-family input whose existing
-   unlocking data holds something that parses as a signature (e.g. a signature made stale by editing the tx) *)
-Definition stale_pkh (pz : puzzle) (ss : bytes) (w : list bytes) : bool :=
-  pkh_kind (pz_kind pz) &&
-  match existing_blobs ss w with Some blobs => existsb parse_sig_ok blobs | None => false end.
-
+(* 11. no exception escapes Tx.sign                                                                   *)
 Section NoCrash.
 Variable hash160 : bytes -> bytes.
 Variable sha256 : bytes -> bytes.
@@ -1835,29 +1826,29 @@ Proof.
   destruct (sign_loop_ret w sc ht nvars Hlt Hd (rev (enumerate_from 0 (rev keys))) solved existing) as (acc & ->). eauto.
 Qed.
 
-Theorem sign_input_no_crash_partial forkid pz hto ss w :
+(* on every push-only input, whatever it already holds (stale signatures included), Solver.sign returns *)
+Theorem sign_input_no_crash forkid pz hto ss w :
   existing_blobs ss w <> None ->                      (* push-only scriptSig: the contract's domain *)
-  stale_pkh pz ss w = false ->
   effective_hash_type forkid hto < 256 ->
   (forall wit sc, sighash wit (effective_hash_type forkid hto) sc <> None) ->
   exists st, sign_input hash160 sha256 verifies sign pub_of sighash db p2sh forkid pz hto ss w = Ret st.
 Proof.
-  intros Hdom Hst Hlt Hd. set (ht := effective_hash_type forkid hto) in *.
+  intros Hdom Hlt Hd. set (ht := effective_hash_type forkid hto) in *.
   unfold sign_input. destruct (eval_input _ _ _ _ _ _ _ _); [eauto|]. fold ht.
-  unfold solve_input. unfold stale_pkh in Hst.
+  unfold solve_input.
   destruct (existing_blobs ss w) as [blobs|]; [|congruence].
   assert (HS : forall wt sc nv keys bl k, exists r,
             of_outcome (signing_solver hash160 verifies sign sighash db wt sc ht nv keys bl) k = k r).
   { intros. destruct (signing_solver_ret wt sc ht nv keys bl Hlt (Hd wt sc)) as (sigs & ->). now exists sigs. }
-  assert (HP : forall wt h k, pkh_kind (pz_kind pz) = true ->
+  assert (HP : forall wt h k,
             solve_pkh hash160 verifies sign pub_of sighash db wt h ht blobs k = Unsolved \/
             exists a b, solve_pkh hash160 verifies sign pub_of sighash db wt h ht blobs k = k a b).
-  { intros wt h k Hk. rewrite Hk in Hst. cbn [andb] in Hst. unfold solve_pkh.
-    destruct (lookup_get db h) as [[secret c]|]; [|now left]. rewrite Hst. right.
-    destruct (HS wt (p2pkh_script h) 1%nat [pub_of secret c] [] (fun sigs => k (hd [] sigs) (pub_of secret c))) as (r & ->). eauto. }
+  { intros wt h k. unfold solve_pkh.
+    destruct (lookup_get db h) as [[secret c]|]; [|now left]. right.
+    destruct (HS wt (p2pkh_script h) 1%nat [pub_of secret c] blobs (fun sigs => k (hd [] sigs) (pub_of secret c))) as (r & ->). eauto. }
   destruct (pz_kind pz) eqn:Ek.
   - destruct (HS false (p2pk_script (hd [] (pz_keys pz))) 1%nat [hd [] (pz_keys pz)] blobs (fun sigs => Solved (pushes sigs) None)) as (r & ->). eauto.
-  - destruct (HP false (pz_hash pz) (fun sig sec => Solved (pushes [sig; sec]) None) eq_refl) as [->|(a & b & ->)]; eauto.
+  - destruct (HP false (pz_hash pz) (fun sig sec => Solved (pushes [sig; sec]) None)) as [->|(a & b & ->)]; eauto.
   - destruct (HS false (ms_script (pz_m pz) (pz_keys pz)) (pz_m pz) (pz_keys pz) blobs (fun sigs => Solved (pushes ([] :: sigs)) None)) as (r & ->). eauto.
   - destruct (p2sh_get hash160 sha256 p2sh _) as [u|]; [|eauto]. destruct (520 <? lenN u); [eauto|].
     destruct (HS false (ms_script (pz_m pz) (pz_keys pz)) (pz_m pz) (pz_keys pz) blobs (fun sigs => Solved (pushes ([] :: sigs ++ [u])) None)) as (r & ->). eauto.
@@ -1866,30 +1857,8 @@ Proof.
   - destruct (p2sh_get hash160 sha256 p2sh (hash160 _)) as [u1|]; [|eauto].
     destruct (p2sh_get hash160 sha256 p2sh (sha256 _)) as [u2|]; [|eauto].
     destruct (HS true (ms_script (pz_m pz) (pz_keys pz)) (pz_m pz) (pz_keys pz) blobs (fun sigs => Solved (pushes [u1]) (Some ([] :: sigs ++ [u2])))) as (r & ->). eauto.
-  - destruct (HP true (pz_hash pz) (fun sig sec => Solved [] (Some [sig; sec])) eq_refl) as [->|(a & b & ->)]; eauto.
+  - destruct (HP true (pz_hash pz) (fun sig sec => Solved [] (Some [sig; sec]))) as [->|(a & b & ->)]; eauto.
   - destruct (p2sh_get hash160 sha256 p2sh _) as [u|]; [|eauto].
-    destruct (HP true (pz_hash pz) (fun sig sec => Solved (pushes [u]) (Some [sig; sec])) eq_refl) as [->|(a & b & ->)]; eauto.
+    destruct (HP true (pz_hash pz) (fun sig sec => Solved (pushes [u]) (Some [sig; sec]))) as [->|(a & b & ->)]; eauto.
 Qed.
 End NoCrash.
-
-(* the full statement (no exclusion) and its refutation by a concrete instance *)
-Definition no_crash_statement : Prop :=
-  forall (hash160 sha256 : bytes -> bytes) (verifies : bytes -> bytes -> bytes -> bool) (sign : bytes -> bytes -> bytes)
-         (pub_of : bytes -> bool -> bytes) (sighash : bool -> N -> bytes -> option bytes)
-         (db : lookup) (p2sh : list bytes) (forkid : bool) (pz : puzzle) (hto : option N) (ss : bytes) (w : list bytes),
-  existing_blobs ss w <> None -> effective_hash_type forkid hto < 256 ->
-  (forall wit sc, sighash wit (effective_hash_type forkid hto) sc <> None) ->
-  exists st, sign_input hash160 sha256 verifies sign pub_of sighash db p2sh forkid pz hto ss w = Ret st.
-
-Lemma no_crash_refuted : ~ no_crash_statement.
-Proof.
-  intros H.
-  specialize (H (fun x => x) (fun x => x) (fun _ _ _ => false) (fun _ _ => []) (fun se _ => se) (fun _ _ _ => Some [])
-                [([x01], ([x01], true))] [] false (mkPuzzle K_P2PKH 1 [] [x01]) None
-                (push_data gen_c05_placeholder ++ push_data [x02]) []).
-  destruct H as (st & Hst).
-  - vm_compute. discriminate.
-  - vm_compute. reflexivity.
-  - intros; discriminate.
-  - vm_compute in Hst. discriminate.
-Qed.
